@@ -114,10 +114,13 @@ MUTANTS = [
     M("alg-benign-truthiness", HU, "    if len(homeless_shares) != 0:\n", "    if homeless_shares:\n", None),
 
     # ---- C07.5 spread: candidate servers only lose matched servers
+    M("candidate-server-dropped-again", HU,
+      "    new_peers = set(peers) - existing_peers - used_peers\n",
+      "    new_peers = new_peers - existing_peers - used_peers\n", "C07.5",
+      note="re-introduces the defect repaired by the fix: commit (a writable peer whose shares were matched to read-only peers never gets a new share)"),
     M("candidate-server-discarded", HU,
-      "                servermap.pop(peer, None)\n                # allmydata.test.test_upload.EncodingParameters.test_exception",
-      "                servermap.pop(peer, None)\n                new_peers.discard(peer)\n                # allmydata.test.test_upload.EncodingParameters.test_exception",
-      "C07.5"),
+      "    new_peers = set(peers) - existing_peers - used_peers\n",
+      "    new_peers = set(peers) - existing_peers - used_peers\n    new_peers.discard(sorted(new_peers)[0]) if len(new_peers) > 1 else None\n", "C07.5"),
 
     # ---- vanished anchors
     M("vanish-flow-graph", HU, "def _servermap_flow_graph(peers, shares, servermap):", "def _servermap_flow_graphX(peers, shares, servermap):",
